@@ -396,3 +396,49 @@ Proof.
                   (map c_name (t_cols (x_t x))) Hn eq_refl eq_refl eq_refl (not_null_text_nocomma _) Hin) as Hap.
     exact (Hap Hns).
 Qed.
+
+(** ** the predicate of a partial index on the printed CREATE INDEX *)
+Definition index_head (t : table) (i : index) : bytes :=
+  let b1 := bP [] [W_CREATE] in
+  let b2 := bP (if i_unique i then bP b1 [W_UNIQUE] else b1) [W_INDEX] in
+  p_parts (bIdent (bP (bIdent b2 (i_name i)) [W_ON]) (t_name t)) (i_parts i).
+
+Lemma bClose_last b : last_byte (bClose b) = ch_rp.
+Proof. unfold bClose. destruct (N.eqb (last_byte b) 32); apply last_byte_snoc. Qed.
+
+Lemma index_head_good t i : good 67 (index_head t i) /\ last_byte (index_head t i) = ch_rp.
+Proof.
+  unfold index_head. split.
+  - apply good_p_parts, good_bIdent, good_bP, good_bIdent, good_bP.
+    destruct (i_unique i); [apply good_bP|]; exists (tl (bP [] [W_CREATE])); split; (reflexivity || discriminate).
+  - unfold p_parts, bWrap. apply bClose_last.
+Qed.
+
+(** for a trimmed, non-empty predicate [p]: if the letters WHERE do not occur in the statement before the
+    keyword (index, table and column names, expressions), the predicate the inspector reads back is [p] *)
+Theorem index_predicate_print_index t i0 i p txt :
+  normalize_idx_name i0 t = Some i -> i_pred i = Some p -> p <> [] -> trim_space p = p ->
+  is_go_space (last_byte p) = false ->
+  occurs_cs K_WHERE (index_head t i) = false ->
+  print_index t i0 = Some txt -> index_predicate txt = Some p.
+Proof.
+  intros Hn Hp Hne Htr Hlp Hfree Hpi. unfold print_index in Hpi. rewrite Hn, Hp in Hpi.
+  fold (index_head t i) in Hpi. destruct (index_head_good t i) as [(r & Hr & Hrn) Hl].
+  set (b4 := index_head t i) in *.
+  assert (bP (bP b4 [K_WHERE]) [p] = (b4 ++ [32] ++ K_WHERE ++ [32] ++ p) ++ [32]) as Hb.
+  { rewrite !bP_one. rewrite (bP1_nosp b4 K_WHERE) by ((rewrite Hr; discriminate) || (rewrite Hl; reflexivity) || discriminate || reflexivity).
+    rewrite bP1_sp; [| rewrite Hr; discriminate | rewrite !app_assoc; apply last_byte_snoc | exact Hne |].
+    - repeat rewrite <- app_assoc. reflexivity.
+    - destruct (N.eqb (last_byte p) 32) eqn:E; [|reflexivity]. apply N.eqb_eq in E. rewrite E in Hlp. discriminate. }
+  rewrite Hb in Hpi. unfold bString in Hpi.
+  assert (trim_space ((b4 ++ [32] ++ K_WHERE ++ [32] ++ p) ++ [32]) = b4 ++ [32] ++ K_WHERE ++ [32] ++ p) as Ht.
+  { rewrite Hr. change ((67 :: r) ++ [32] ++ K_WHERE ++ [32] ++ p) with (67 :: (r ++ [32] ++ K_WHERE ++ [32] ++ p)).
+    rewrite trim_space_snoc_sp by reflexivity. apply trim_space_id; [reflexivity|].
+    replace (67 :: r ++ [32] ++ K_WHERE ++ [32] ++ p) with ((67 :: r ++ [32] ++ K_WHERE ++ [32]) ++ p)
+      by (cbn [app]; repeat rewrite <- app_assoc; reflexivity).
+    rewrite last_byte_app by exact Hne. exact Hlp. }
+  rewrite Ht in Hpi. injection Hpi as <-.
+  change (b4 ++ 32 :: 87 :: 72 :: 69 :: 82 :: 69 :: 32 :: p) with (b4 ++ 32 :: K_WHERE ++ ([32] ++ p)).
+  rewrite (index_predicate_printed b4 32 ([32] ++ p) Hfree) by (intros [H|[H|[H|[H|[H|[]]]]]]; discriminate).
+  f_equal. unfold trim_space. cbn [app skip_while]. change (is_go_space 32) with true. cbn iota. exact Htr.
+Qed.
